@@ -172,6 +172,74 @@ def lImport (H : Bytes → Nat) (st : LB σ) (clear : Bool) (pl : Bytes) (gs : L
   let r := importBits C p clear st.bm gs
   (writeOp H { st with bm := r.1 } (if clear then .removeRoaring pl r.2 else .addRoaring pl r.2), r.2)
 
+/-! #### A writer that may fail
+
+`WOut` is what one `Write` call on the OpWriter does: it takes everything, or it returns an error
+after `k` bytes (`k = 0`: a clean failure; `k > 0`: a short write, the bytes stay in the log).
+`writeOp` counts the op only when `op.WriteTo` returned no error. -/
+
+inductive WOut where
+  | ok
+  | fail (k : Nat)
+deriving DecidableEq, Repr
+
+/-- `writeOp` with a given outcome of the `Write` call; the flag is "an error was returned". -/
+def writeOpW (H : Bytes → Nat) (st : LB σ) (o : LOp) : WOut → LB σ × Bool
+  | .ok => (writeOp H st o, false)
+  | .fail k => ({ st with log := st.log ++ (encode H o).take k }, true)
+
+/-- `Add(vs...)`: one write per value (`outs` = their outcomes, missing ones succeed); the first
+failing write makes the call return `(false, err)` with the remaining values untouched. -/
+def lAddW (H : Bytes → Nat) : LB σ → Bool → List Nat → List WOut → LB σ × Bool × Bool
+  | st, c, [], _ => (st, c, false)
+  | st, c, v :: vs, outs =>
+    let w := writeOpW H st (.add v) (outs.headD .ok)
+    if w.2 then (w.1, false, true)
+    else
+      let r := directAdd C p w.1.bm v
+      lAddW H { w.1 with bm := r.1 } (c || r.2) vs outs.tail
+
+def lRemoveW (H : Bytes → Nat) : LB σ → Bool → List Nat → List WOut → LB σ × Bool × Bool
+  | st, c, [], _ => (st, c, false)
+  | st, c, v :: vs, outs =>
+    let w := writeOpW H st (.remove v) (outs.headD .ok)
+    if w.2 then (w.1, false, true)
+    else
+      let r := bmRemove C p w.1.bm v
+      lRemoveW H { w.1 with bm := r.1 } (c || r.2) vs outs.tail
+
+/-- `AddN`: apply, log `a[:changed]`; on a write error `DirectRemoveN(op.values...)` and return
+`(0, err)`.  Result: state, the caller's slice afterwards, the reported count, the error flag. -/
+def lAddNW (H : Bytes → Nat) (st : LB σ) (vs : List Nat) (out : WOut) : LB σ × List Nat × Nat × Bool :=
+  if vs.isEmpty then (st, [], 0, false)
+  else
+    let r := directAddN C p st.bm vs
+    let w := writeOpW H { st with bm := r.1 } (.addBatch r.2) out
+    let a := r.2 ++ vs.drop r.2.length
+    if w.2 then
+      let back := directRemoveN C p w.1.bm r.2
+      ({ w.1 with bm := back.1 }, back.2 ++ a.drop back.2.length, 0, true)
+    else (w.1, a, r.2.length, false)
+
+def lRemoveNW (H : Bytes → Nat) (st : LB σ) (vs : List Nat) (out : WOut) : LB σ × List Nat × Nat × Bool :=
+  if vs.isEmpty then (st, [], 0, false)
+  else
+    let r := directRemoveN C p st.bm vs
+    let w := writeOpW H { st with bm := r.1 } (.removeBatch r.2) out
+    let a := r.2 ++ vs.drop r.2.length
+    if w.2 then
+      let back := directAddN C p w.1.bm r.2
+      ({ w.1 with bm := back.1 }, back.2 ++ a.drop back.2.length, 0, true)
+    else (w.1, a, r.2.length, false)
+
+/-- `ImportRoaringBits(…, log=true)`: the import is applied, then logged; when the write fails
+the error is returned together with the change count and **nothing is rolled back** (as coded). -/
+def lImportW (H : Bytes → Nat) (st : LB σ) (clear : Bool) (pl : Bytes) (gs : List (Nat × Cell)) (out : WOut) :
+    LB σ × Nat × Bool :=
+  let r := importBits C p clear st.bm gs
+  let w := writeOpW H { st with bm := r.1 } (if clear then .removeRoaring pl r.2 else .addRoaring pl r.2) out
+  (w.1, r.2, w.2)
+
 end bitmap
 
 /-! ### Spec: what the log means for the set -/
